@@ -37,7 +37,7 @@ ASSUMPTIONS = [
     "run A (flag never on) defines 'what it would return with caching disabled'",
 ]
 LEVEL_TEXT = (
-    "Differential exploration: ~5*10^4 (quick) / 10^6 (thorough) histories, each run with and without caching and "
+    "Differential exploration with a bounded-exhaustive core (every history of <= 3 / <= 4 steps from a 22-op alphabet over 2 vertices) and ~2*10^4 (quick) / 4*10^5 (thorough) Hypothesis histories, each run with and without caching and "
     "compared over a battery of ~300 queries per query point; plus fresh-interpreter batches.  The cache is a "
     "history-dependent optimisation, so only a differential over histories can decide it."
 )
@@ -55,7 +55,7 @@ FUZZ = dict(quick=0, thorough=6000)
 
 def budget(tier):
     if tier == "quick":
-        return dict(shards=16, examples=1500, time_s=55)
+        return dict(shards=16, examples=1100, time_s=58)
     return dict(shards=16, examples=25000, time_s=850)
 
 
@@ -69,6 +69,30 @@ def strategy(tier):
         st.lists(op, max_size=maxlen),
         st.one_of(st.none(), st.lists(st.integers(0, 5), min_size=1, max_size=4)),
     )
+
+
+def enumerate_cases(tier, shard=0, nshards=1):
+    """Every short history over 2 vertices: the smallest counterexamples of this property are 3-4 steps long."""
+    import itertools
+
+    from eglib.driver import sharded
+
+    depth = 3 if tier == "quick" else 4
+    alpha = [("edge", a, b, c) for a in (0, 1) for b in (0, 1) for c in (0, 4)]          # DirectedEdge / OddLink
+    alpha += [(nm, 0, x, 0) for nm in ("v1", "v2", "uf", "rl") for x in (0, 1)]
+    alpha += [("unlink", 0, 1, 1), ("flag", 0, 0, 0), ("flag", 0, 0, 1), ("query", 0, 0, 0), ("repickle", 0, 0, 0), ("dumponly", 0, 0, 0)]
+
+    def gen():
+        for k in range(2, depth + 1):
+            for seq in sharded(itertools.product(alpha, repeat=k), shard, nshards):
+                if not any(o[0] in ("query", "repickle", "dumponly") for o in seq[:-1]):
+                    continue          # without an intermediate read there is nothing cached to go stale
+                yield {"nv": 2, "flag0": True, "vcls": None, "ops": [list(o) for o in seq]}
+
+    n = sum(len(alpha) ** k for k in range(2, depth + 1))
+    return gen(), (f"all histories of 2..{depth} steps from a {len(alpha)}-op alphabet over 2 vertices (edge constructors of a directed and an "
+                   f"unknown-class link, v1=/v2=, unlink_from, remove_from_link, unlink, flag off/on, query, repickle, serialise-and-keep) that "
+                   f"contain a read before their last step ({n} sequences before that filter), caching initially on")
 
 
 def run_ops(w, ops, flagged):
